@@ -894,7 +894,14 @@ func (d *Driver) RunOne(harness string, params map[string]int) int {
 			continue
 		}
 		d.debug = true
-		r := d.runInstance(&Instance{H: h, Params: params})
+		opt := map[string]int{}
+		for k, v := range params {
+			if strings.HasPrefix(k, "opt.") {
+				opt[k[4:]] = v
+				delete(params, k)
+			}
+		}
+		r := d.runInstance(&Instance{H: h, Params: params, Opt: opt})
 		b, _ := json.MarshalIndent(r.Stats, "", " ")
 		fmt.Println(string(b))
 		for _, f := range r.Findings {
